@@ -224,10 +224,18 @@ def main():
             pass
         os.unlink(out + '.last')
     if res is None:
+        # a harness may name a file holding the script that was running (`ctx.mark('inflight-script: <path> …')`): it becomes the repro
+        m_inf = re.search(r'inflight-script: (\S+)', last or '')
+        crash_repro = None
+        if m_inf and os.path.exists(m_inf.group(1)):
+            try:
+                crash_repro = open(m_inf.group(1)).read()
+            except OSError:
+                pass
         failures.append(dict(kind='crash', site='harness', input_class=f'exit={rc}',
                              what=f'the interpreter running the property harness died with status {rc} (abort / failed assertion / segfault '
                                   f'in the code under test); last case seen: {last}',
-                             repro=None, detail=dict(last_case=last), count=1))
+                             repro=crash_repro, detail=dict(last_case=last), count=1))
 
     known = [k for k in load_known() if k.get('property') == prop and k.get('status') == 'open']
     violations, known_hits = [], []
